@@ -282,16 +282,15 @@ func (s *VerticalFilterReader) hitExpr(expr influxql.Expr) bool {
 		case influxql.MATCHPHRASE:
 			val := n.RHS.(*influxql.StringLiteral).Val
 			hashValues := s.hashes[val]
-			isExist := false
+			// a phrase without any token to look up excludes no block
 			for _, hash := range hashValues {
-				isExist = true
 				pieceOffset, offsetInLong := s.getPieceOffset(hash, s.groupIndex)
 				hashSlot := s.loadHash(pieceOffset, offsetInLong, s.currentBlockId)
 				if !s.bloomFilter.LoadHit(hash, hashSlot) {
 					return false
 				}
 			}
-			return isExist
+			return true
 		}
 	default:
 		return true
@@ -461,14 +460,13 @@ func (s *LineFilterReader) hitExpr(expr influxql.Expr) bool {
 
 			blockOffset := s.currentBlockId * logstore.GetConstant(s.version).FilterDataDiskSize
 			bloomFilter := s.bloomCache[blockOffset]
-			isExist := false
+			// a phrase without any token to look up excludes no block
 			for _, hash := range hashValues {
-				isExist = true
 				if !bloomFilter.Hit(hash) {
 					return false
 				}
 			}
-			return isExist
+			return true
 		}
 	default:
 		return true
